@@ -4,6 +4,7 @@ CONSTANTS
   K = 0
   M = 1
   Variant = "as_coded"
+  Direct = FALSE
   GenHist = TRUE
 INVARIANT Emit
 CHECK_DEADLOCK FALSE
